@@ -27,7 +27,9 @@ Hypotheses (each satisfiable, see the `example`s at the end):
   hashed WITHOUT the digest fallback (C08's `Plain`) and with < 2^32 memoised objects;
 * `NoCollisionOn H (streams of the history)` — the digest has no collision AMONG THE FINITELY MANY
   KEYS OF THE HISTORY (`H` is NOT assumed injective: md5 is not);
-* `Respects E fn` — the function is a pure function of its arguments and ignores the ignored ones;
+* `Respects E fn` — the RESULT of the function is a pure function of its arguments as passed and
+  ignores the ignored ones (what the function does TO its arguments in place, `Fn.effect`, is
+  unconstrained: "the same arguments" are the arguments as passed);
 * one cached callable per function identifier (two functions under one identifier: C12; all
   `functools.partial` objects share one identifier — `shared_function_id_stale_reference_counterexample`).
 
@@ -87,7 +89,8 @@ theorem key_sound_nonfunction_partial (H : Bs → Bs) (E : Env) (s : Sig) (pa : 
 calls, `check_call_in_cache`, `MemorizedFunc.clear`, `Memory.clear`, evictions, fresh processes, with
 any number of cached functions and any validation-callback answers — every value returned by a
 call, a forced call or a `.get()` whose arguments Python accepts equals `fn.body (bindOf fn.cal c)`:
-what the undecorated function returns for those arguments (`Correct` at every step).  It holds for
+what the undecorated function returns for those arguments AS PASSED (`Correct` at every step; the
+functions may do anything to their arguments in place: `Fn.effect` is unconstrained).  It holds for
 both versions of the code (`ver`: with and without the F30 repair of `MemorizedFunc.call`, which
 changes how often the function runs, not what is returned). -/
 theorem cached_call_correct_partial (ver : JoblibModel.MemoryCache.Version) (H : Bs → Bs) (E : Env) (ops : List (Op R))
@@ -148,12 +151,55 @@ theorem stored_under_own_id (ver : JoblibModel.MemoryCache.Version) (H : Bs → 
     cases hb : bindOf fn.cal c with
     | error e => simp [compute, hb] at hx
     | ok b =>
-      simp only [compute, hb] at hx ⊢
+      simp only [compute, afterCall, hb] at hx ⊢
       simp only [Out.value.injEq, and_true] at hx
       subst hx
       refine ⟨dget_dset_self _ _ _, fun id hne => ?_⟩
       show dget id (dset (fn.fid, k) _ _) = _
       rw [dget_dset_ne hne, hent id hne]
+
+/-! ## Functions that MUTATE their arguments
+
+`Fn.effect` (what the body leaves in the `args` / `kwargs` objects) is arbitrary in every theorem above:
+`Correct` compares the value handed back with `fn.body` of the arguments bound from the call AS PASSED
+(`bindOf fn.cal c`), `Respects` is about `fn.body` alone, and `UnivOK` asks hashability only of the
+arguments as passed — `cached_call_correct_partial` IS the statement for mutating functions ("the value
+returned is f's result on the arguments as passed").  The next theorem says why nothing more is
+needed; the variant that keys a forced call after the body breaks C02 as well
+(`key_after_call_wrong_value_counterexample`). -/
+
+/-- **What a function does to its arguments is invisible to the cache** (the code as it is, either
+version): replace the effect on the arguments of every function of a history by ANY other
+(`Op.withEffects e`; e.g. by "leaves them alone") — every output of the history (values, executed or
+served, check answers, errors) and the final cache directory are the same.  The keys are computed
+from the arguments as passed, before the body runs. -/
+theorem effect_on_arguments_irrelevant (ver : JoblibModel.MemoryCache.Version) (H : Bs → Bs) (E : Env)
+    (e : Fn R → Call → Call) (ops : List (Op R)) (st : St R) :
+    run ver H E st (ops.map (Op.withEffects e)) = run ver H E st ops ∧
+      exec ver H E st (ops.map (Op.withEffects e)) = exec ver H E st ops :=
+  run_exec_withEffects ver H E e ops st
+
+/-- `cached_call_correct_partial` for functions that mutate their arguments, spelled out: take a
+history whose functions leave their arguments alone and satisfy the hypotheses, and let every function
+do ANYTHING to its arguments in place (`e`): every value handed back is still the plain function's
+result on the arguments AS PASSED. -/
+theorem cached_call_correct_mutating_partial (ver : JoblibModel.MemoryCache.Version) (H : Bs → Bs) (E : Env)
+    (e : Fn R → Call → Call) (ops : List (Op R))
+    (hu : UnivOK H E (callsOf (ops.map (Op.withEffects e)))) :
+    AllCorrect ver H E (St.empty : St R) (ops.map (Op.withEffects e)) :=
+  cached_call_correct_partial ver H E _ hu
+
+/-- **Keying a forced call after the body hands out another call's value** (variant `Cfg.keyAfterCall`,
+seeded change C06-r4-m3; `fnSort` returns its list argument as passed and sorts it in place):
+`cf.call([3, 1, 2])` files its result under the key of `[1, 2, 3]`, and `cf([1, 2, 3])` is then served
+`[3, 1, 2]`'s result — not what the plain function returns for `[1, 2, 3]`. -/
+theorem key_after_call_wrong_value_counterexample :
+    runC ⟨.fixed, true⟩ hId envMut St.empty [.force fnSort ⟨[0], []⟩, .call fnSort ⟨[1], []⟩ true] =
+      [.value [(0, .one 0)] true, .value [(0, .one 0)] false] ∧
+    bindOf fnSort.cal ⟨[1], []⟩ = .ok [(0, .one 1)] ∧ fnSort.body [(0, .one 1)] = [(0, .one 1)] ∧
+    run .fixed hId envMut St.empty [.force fnSort ⟨[0], []⟩, .call fnSort ⟨[1], []⟩ true] =
+      [.value [(0, .one 0)] true, .value [(0, .one 1)] true] := by
+  decide +kernel
 
 /-! ## The digest fallback (F12) makes the full statement false -/
 
@@ -164,7 +210,7 @@ def envF12 (H : Bs → Bs) : Env where
     else .set [.str (H (encode H (.int 1))), .str (H (encode H (.str [97])))]
   name := fun n => [97 + n]
 
-def fnF12 : Fn (List (Nat × Val)) := ⟨0, .func [⟨0, .posKw, none⟩], [], fun b => b⟩
+def fnF12 : Fn (List (Nat × Val)) := ⟨0, .func [⟨0, .posKw, none⟩], [], fun b => b, fun c => c⟩
 
 /-- **Counterexample to the full statement** (whatever the digest `H` and the version of the code): `f({1, 'a'})` then
 `f({hash(1), hash('a')})` — two different argument values — get the same key (F12), so the second
@@ -182,7 +228,7 @@ theorem fallback_collision_counterexample (ver : JoblibModel.MemoryCache.Version
   have e1 : cachedCall H (envF12 H) St.empty fnF12 ⟨[0], []⟩ true =
       .ok (.ok ([(0, .one 0)], true),
         ⟨[0], [((0, H (stream H (envF12 H) [(.name 0, .one 0)])), [(0, .one 0)])]⟩) := by
-    simp only [cachedCall, argsId, h1, isInCacheAndValid, checkCode, St.empty, compute, b1]
+    simp only [cachedCall, argsId, h1, isInCacheAndValid, checkCode, St.empty, compute, afterCall, b1]
     rfl
   have e2 : cachedCall H (envF12 H)
       ⟨[0], [((0, H (stream H (envF12 H) [(.name 0, .one 0)])), [(0, .one 0)])]⟩ fnF12 ⟨[1], []⟩ true =
@@ -200,8 +246,8 @@ object gets the identifier `functools/unknown` (F32), and a `MemorizedResult` na
 (function id, args id) alone — `.get()` does not look at `func_code.py`. -/
 
 /-- `functools.partial(g, 1)` and `functools.partial(g, 2)` for `def g(a)`: the same function id -/
-def fnPart1 : Fn (List (Nat × Val)) := ⟨7, .part [⟨0, .posKw, none⟩] [1] [], [], fun b => b⟩
-def fnPart2 : Fn (List (Nat × Val)) := ⟨7, .part [⟨0, .posKw, none⟩] [2] [], [], fun b => b⟩
+def fnPart1 : Fn (List (Nat × Val)) := ⟨7, .part [⟨0, .posKw, none⟩] [1] [], [], fun b => b, fun c => c⟩
+def fnPart2 : Fn (List (Nat × Val)) := ⟨7, .part [⟨0, .posKw, none⟩] [2] [], [], fun b => b, fun c => c⟩
 
 /-- **Counterexample without `fids`** (either version of the code, any digest): `r = p1.call_and_shelve()`;
 then `p2()` — its "source" differs, so `_check_previous_func_code` wipes the shared directory
@@ -221,7 +267,7 @@ theorem shared_function_id_stale_reference_counterexample (ver : JoblibModel.Mem
   have a1 : argDict fnPart1.cal fnPart1.ig ⟨[], []⟩ = .ok [(.star, .seq []), (.dstar, .map [])] := rfl
   have a2 : argDict fnPart2.cal fnPart2.ig ⟨[], []⟩ = .ok [(.star, .seq []), (.dstar, .map [])] := rfl
   simp only [run, JoblibModel.MemoryCache.step, cachedCall, argsId, a1, a2, isInCacheAndValid, checkCode,
-    St.empty, compute, b1, b2, f1, f2]
+    St.empty, compute, afterCall, b1, b2, f1, f2]
   simp [dget, dset, fnPart1, fnPart2]
 
 /-! ## Non-vacuity: the hypotheses hold for a non-trivial history
@@ -236,7 +282,8 @@ example : UnivOK hEx envEx (callsOf histEx) := univOK_histEx
 example : hEx [1] = hEx [2] ∧ ([1] : Bs) ≠ [2] := hEx_not_injective
 example : AllCorrect .fixed hEx envEx St.empty histEx :=
   cached_call_correct_partial .fixed hEx envEx histEx univOK_histEx
-example (fid : Nat) (s : Sig) (ig : List Key) : Respects envEx ⟨fid, .func s, ig, canonBody envEx s ig⟩ :=
-  respects_canonBody envEx fid s ig
+example (fid : Nat) (s : Sig) (ig : List Key) (eff : Call → Call) :
+    Respects envEx ⟨fid, .func s, ig, canonBody envEx s ig, eff⟩ :=
+  respects_canonBody envEx fid s ig eff
 
 end C02
